@@ -99,10 +99,16 @@ type c18Case struct {
 	// OSLike: the layers answer like a directory of the operating system: a path below a regular
 	// file fails with ENOTDIR ("not a directory"), not with fs.ErrNotExist
 	OSLike bool `json:"oslike,omitempty"`
+	// OpenOnly: which layers are handed over as a bare fs.FS (Open alone: no Stat, ReadDir, ReadFile
+	// or Glob of their own, like embed.FS behind a wrapper or a zip reader): upper | lower | all
+	OpenOnly string `json:"openonly,omitempty"`
 	// Kids > 0: the nested part: Kids overlays built from one parent overlay that wraps an overlay of Depth layers
 	Kids  int `json:"kids,omitempty"`
 	Depth int `json:"depth,omitempty"`
 }
+
+// openOnlyFS hides everything but Open.
+type openOnlyFS struct{ fs.FS }
 
 // osLikeFS wraps a layer: looking up a path whose parent is a regular file reports ENOTDIR.
 type osLikeFS struct{ fs.FS }
@@ -313,9 +319,12 @@ func (c *c18Case) Run(ctx *core.Ctx) {
 			continue
 		}
 		l := c18Layers[li].build(pos)
-		if c.OSLike {
+		switch {
+		case c.OSLike:
 			stack = append(stack, osLikeFS{l})
-		} else {
+		case c.OpenOnly == "all" || (c.OpenOnly == "upper" && pos == 0) || (c.OpenOnly == "lower" && pos > 0):
+			stack = append(stack, openOnlyFS{l})
+		default:
 			stack = append(stack, l)
 		}
 		m.layers = append(m.layers, l)
@@ -342,6 +351,9 @@ func (c *c18Case) Run(ctx *core.Ctx) {
 		pat := m.pattern(p) + nilTag
 		if c.OSLike {
 			pat += "+oslike"
+		}
+		if c.OpenOnly != "" {
+			pat += "+openonly-" + c.OpenOnly
 		}
 		if m.mixed(p) && kindIn(first0(m.layers, p), p) == "d" {
 			// the first layer that has p has a directory where a layer above has a file of a prefix's name:
@@ -659,6 +671,18 @@ func init() {
 			for _, i := range all {
 				for _, j := range all {
 					emit(&c18Case{Layers: []int{i, j}, OSLike: true})
+					for _, oo := range []string{"upper", "lower", "all"} {
+						emit(&c18Case{Layers: []int{i, j}, OpenOnly: oo})
+					}
+				}
+			}
+			for _, i := range red {
+				for _, j := range red {
+					for _, k := range red {
+						for _, oo := range []string{"upper", "lower", "all"} {
+							emit(&c18Case{Layers: []int{i, j, k}, OpenOnly: oo})
+						}
+					}
 				}
 			}
 			rec(nil, 1, all)
